@@ -293,6 +293,7 @@ fn decode(t: &mut Tape) -> Case {
     // stops with the same fault on both sides)
     p.broken_guards_permille = 30;
     let big_endian = t.chance(1, 2);
+    p.index_gaps_permille = 200;
     let g = gen_fn(t, &p);
     let mut spec = g.spec;
     let mut pool = g.pool;
